@@ -6,6 +6,7 @@ from hypothesis import strategies as st
 
 from ..core import Clause, Enum, Violation, guard, ulp, HarnessError
 from .c12 import box12
+from ..harness import pname, NAME_STYLES
 
 PROPERTY = "C13"
 LEVEL = "exploration"
@@ -15,7 +16,10 @@ RULE = ("FullFactor(+-centre) d=1..6 and FullFactorLevels with drawn unique leve
         "orthogonal design of 4(floor(n/4)+1) runs, other counts may only be rejected with AssertionError; "
         "Box-Behnken n=3..10: rows == all four +- corners of every factor pair (others mid) + one centre; GSD: "
         "build_gsd(levels, r, n=r) and GSDGenerator with k>=2 factors and levels >= r >= 2: duplicate-free subset of "
-        "the full factorial, complementary designs pairwise disjoint with union == full factorial. Non-trivial = >= 3 "
+        "the full factorial, complementary designs pairwise disjoint with union == full factorial; sequences of 2..4 "
+        "generators (full factorial, +centre, PB, BB) over ONE shared parameter list, each checked against the declared "
+        "bounds; level lists and PB bounds also hold Python ints (beyond 2**53) and mix ints with floats, compared "
+        "exactly. Non-trivial = >= 3 "
         "factors, or a PB design built by Kronecker doubling, or unequal level counts in GSD")
 ASSUMPTIONS = ["level lists hold distinct values", "bounds lb<ub with width >= 1e-9*|bound| (levels distinguishable)",
                "GSD domain: k>=2 factors, level counts >= 2, reduction >= 2; a ValueError is accepted only when some level count is "
@@ -26,13 +30,24 @@ def _tol(lb, ub):
     return 1e-12 * abs(ub - lb) + 4 * ulp(max(abs(lb), abs(ub)))
 
 
-def _ps(boxes):
-    return [{"name": "x%d" % i, "bounds": list(b)} for i, b in enumerate(boxes)]
+def _ps(boxes, names="x"):
+    return [{"name": pname(i, names), "bounds": list(b)} for i, b in enumerate(boxes)]
 
 
 # ---------------------------------------------------------------- full factorial
 
 levelval = st.one_of(st.integers(-5, 5).map(float), st.floats(-100, 100, allow_nan=False).map(lambda x: round(x, 2)))
+# levels are the user's own values and are handed through as given: Python ints (also beyond 2**53, where neighbouring
+# integers are not representable as doubles) and lists mixing ints and floats are part of the domain
+BIG = 2 ** 53
+intval = st.one_of(st.integers(-9, 9), st.integers(BIG - 2, BIG + 6), st.integers(-BIG - 6, -BIG + 2),
+                   st.integers(2 ** 63 - 2, 2 ** 63 + 2))
+anyval = st.one_of(levelval, levelval, intval)
+
+
+def py(x):
+    """numpy scalar -> the Python number it holds, so that == and hash are exact (int/float comparisons in Python are)"""
+    return x.item() if hasattr(x, "item") else x
 
 
 @st.composite
@@ -44,15 +59,16 @@ def ff_cases(draw):
         prod = 1
         for _ in range(d):
             cap = max(1, min(9, 5000 // prod))
-            lv = draw(st.lists(levelval, min_size=1, max_size=cap, unique=True))
+            lv = draw(st.lists(draw(st.sampled_from([levelval, levelval, intval, anyval])), min_size=1, max_size=cap,
+                               unique=True))
             prod *= len(lv)
             levels.append(lv)
         return {"kind": kind, "levels": levels}
     d = draw(st.integers(1, 7 if kind == "centre" else 6))
-    return {"kind": kind, "boxes": [draw(box12()) for _ in range(d)]}
+    return {"kind": kind, "boxes": [draw(box12()) for _ in range(d)], "names": draw(st.sampled_from(NAME_STYLES))}
 
 
-def check_fullfact(case):
+def check_fullfact(case, ps=None):
     import artap.operators as ops
     kind = case["kind"]
     if kind == "levels":
@@ -61,13 +77,13 @@ def check_fullfact(case):
         with guard("fullfact"):
             g = ops.FullFactorLevelsGenerator(ps)
             g.init([list(l) for l in levels])
-            rows = [tuple(float(x) for x in r) for r in g.generate()]
-        want = Counter(tuple(float(x) for x in c) for c in itertools.product(*levels))
+            rows = [tuple(py(x) for x in r) for r in g.generate()]
+        want = Counter(itertools.product(*levels))
         got = Counter(rows)
     else:
         boxes = case["boxes"]
         with guard("fullfact"):
-            g = ops.FullFactorGenerator(_ps(boxes))
+            g = ops.FullFactorGenerator(ps if ps is not None else _ps(boxes, case.get("names", "x")))
             g.init(kind == "centre")
             raw = [list(map(float, r)) for r in g.generate()]
         levels = [[lb, (lb + ub) / 2.0, ub] if kind == "centre" else [lb, ub] for lb, ub in boxes]
@@ -109,17 +125,16 @@ def pb_items(tier):
             yield {"n": n, "box": list(b)}
 
 
-def check_pb(case):
+def check_pb(case, ps=None):
     import artap.operators as ops
     n = case["n"]
-    lb, ub = case["box"]
+    boxes = case.get("boxes") or [case["box"]] * n
     runs = 4 * (n // 4 + 1)
     sup = pb_supported(runs)
-    boxes = [(lb + 0.0 * i, ub) for i in range(n)]
     try:
         with guard("plackett-burman", allowed=(AssertionError,)):
-            g = ops.PlackettBurmanGenerator(_ps(boxes))
-            rows = [list(map(float, r)) for r in g.generate()]
+            g = ops.PlackettBurmanGenerator(ps if ps is not None else _ps(boxes, case.get("names", "x")))
+            rows = [[py(x) for x in r] for r in g.generate()]
     except AssertionError as e:
         if sup:
             raise Violation("plackett-burman", "supported-size-rejected", "n=%d (runs %d) rejected: %s" % (n, runs, e))
@@ -136,6 +151,7 @@ def check_pb(case):
             if len(r) != n:
                 raise Violation("plackett-burman", "shape", "row of %d values for %d factors" % (len(r), n))
             x = r[j]
+            lb, ub = boxes[j]
             if x == lb:
                 col.append(-1)
             elif x == ub:
@@ -158,8 +174,12 @@ def check_pb(case):
 @st.composite
 def pb_cases(draw):
     n = draw(st.integers(1, 23))
-    b = draw(box12())
-    return {"n": n, "box": b}
+    if draw(st.integers(0, 4)) == 0:        # integer bounds, also where doubles cannot tell neighbours apart
+        lo = draw(intval)
+        b = [lo, lo + draw(st.sampled_from([1, 2, 3, 10, 10 ** 17]))]
+    else:
+        b = draw(box12())
+    return {"n": n, "box": b, "names": draw(st.sampled_from(NAME_STYLES))}
 
 
 # ---------------------------------------------------------------- Box-Behnken
@@ -167,15 +187,15 @@ def pb_cases(draw):
 @st.composite
 def bb_cases(draw):
     n = draw(st.integers(3, 10))
-    return {"boxes": [draw(box12()) for _ in range(n)]}
+    return {"boxes": [draw(box12()) for _ in range(n)], "names": draw(st.sampled_from(NAME_STYLES))}
 
 
-def check_bb(case):
+def check_bb(case, ps=None):
     import artap.operators as ops
     boxes = case["boxes"]
     n = len(boxes)
     with guard("box-behnken"):
-        g = ops.BoxBehnkenGenerator(_ps(boxes))
+        g = ops.BoxBehnkenGenerator(ps if ps is not None else _ps(boxes, case.get("names", "x")))
         rows = [list(map(float, r)) for r in g.generate()]
     want = Counter()
     for a, b in itertools.combinations(range(n), 2):
@@ -207,6 +227,35 @@ def check_bb(case):
         raise Violation("box-behnken", "rows", "n=%d: %d rows (expected %d); missing %r extra %r" % (
             n, len(rows), 2 * n * (n - 1) + 1, list((want - got).items())[:3], list((got - want).items())[:3]))
     return {"nt": True, "classes": ["n%d" % n]}
+
+
+# ---------------------------------------------------------------- several generators over one parameter list
+
+@st.composite
+def seq_cases(draw):
+    d = draw(st.integers(3, 6))
+    boxes = [draw(box12()) for _ in range(d)]
+    kinds = draw(st.lists(st.sampled_from(["bounds", "centre", "pb", "bb"]), min_size=2, max_size=4))
+    return {"boxes": boxes, "kinds": kinds, "names": draw(st.sampled_from(NAME_STYLES))}
+
+
+def check_sequence(case):
+    """the user's parameter list is shared by every generator of a study (as in a Problem): each design must have its
+    structure with respect to the declared bounds whatever ran before it"""
+    boxes = [list(b) for b in case["boxes"]]
+    ps = _ps(boxes, case.get("names", "x"))
+    for pos, kind in enumerate(case["kinds"]):
+        try:
+            if kind in ("bounds", "centre"):
+                check_fullfact({"kind": kind, "boxes": boxes}, ps=ps)
+            elif kind == "pb":
+                check_pb({"n": len(boxes), "boxes": boxes}, ps=ps)
+            else:
+                check_bb({"boxes": boxes}, ps=ps)
+        except Violation as v:
+            raise Violation("sequence", "%s-after-%s:%s" % (kind, case["kinds"][pos - 1] if pos else "nothing", v.bucket),
+                            "generators %r over one parameter list, step %d: %s" % (case["kinds"], pos, v.message))
+    return {"nt": len(set(case["kinds"])) >= 2, "classes": ["len%d" % len(case["kinds"])] + sorted(set(case["kinds"]))}
 
 
 # ---------------------------------------------------------------- GSD
@@ -281,6 +330,7 @@ CLAUSES = [
     Clause("plackett-burman", pb_cases(), check_pb, quick=200, thorough=2000),
     Clause("box-behnken", bb_cases(), check_bb, quick=200, thorough=2000),
     Clause("gsd", gsd_cases(), check_gsd, quick=300, thorough=3000, quick_shards=2),
+    Clause("sequence", seq_cases(), check_sequence, quick=150, thorough=1500),
 ]
 ENUMS = [
     Enum("pb-sweep", pb_items, check_pb, tiers=("quick", "thorough"), chunk=24,
